@@ -45,11 +45,20 @@ func Alphabet() []verifc14.Sym {
 			{"-RetryInfo120s", true, verifc14.HintSmall, false},
 			{"-RetryInfo0s", true, 0, false},
 			{"-RetryInfo7200s", true, verifc14.HintLarge, true},
+			// a delay with a sub-second part, a RetryInfo that is not the first detail of the status, a
+			// RetryInfo without a delay: the shapes a detail lookup or a seconds-only conversion gets wrong
+			{"-RetryInfo1.5s", true, 1500 * time.Millisecond, true},
+			{"-ErrorInfo+RetryInfo120s", true, verifc14.HintSmall, true},
+			{"-RetryInfoNoDelay", true, 0, true},
 		} {
 			if d.only && c != codes.Unavailable && c != codes.ResourceExhausted {
 				continue
 			}
-			s := verifc14.Sym{Name: c.String() + d.suffix, Group: "gRPC " + c.String(), Code: uint32(c), RetryInfo: d.ri, Delay: d.delay, Class: verifc14.NonRetryable}
+			s := verifc14.Sym{Name: c.String() + d.suffix, Group: "gRPC " + c.String(), Code: uint32(c), RetryInfo: d.ri, Delay: d.delay, Class: verifc14.NonRetryable,
+				DetailFirst: d.suffix == "-ErrorInfo+RetryInfo120s", NilDelay: d.suffix == "-RetryInfoNoDelay"}
+			if c == codes.ResourceExhausted && (d.suffix == "-RetryInfo1.5s" || s.DetailFirst || s.NilDelay) {
+				s.Thorough = true
+			}
 			if retryable[c] || (c == codes.ResourceExhausted && d.ri) {
 				s.Class = verifc14.Retryable
 				if d.ri {
@@ -79,7 +88,15 @@ func statusErr(s *verifc14.Sym) error {
 	st := status.New(codes.Code(s.Code), "c14 scripted answer "+s.Name)
 	if s.RetryInfo {
 		var err error
-		st, err = st.WithDetails(&errdetails.RetryInfo{RetryDelay: durationpb.New(s.Delay)})
+		ri := &errdetails.RetryInfo{RetryDelay: durationpb.New(s.Delay)}
+		if s.NilDelay {
+			ri = &errdetails.RetryInfo{}
+		}
+		if s.DetailFirst {
+			st, err = st.WithDetails(&errdetails.ErrorInfo{Reason: "C14", Domain: "verif.test"}, ri)
+		} else {
+			st, err = st.WithDetails(ri)
+		}
 		if err != nil {
 			panic(err)
 		}
